@@ -59,9 +59,9 @@ SPECS = {
                 stats=['kind:clone', 'kind:clone_from'],
                 what='clone builds every field from the same-named accessor exactly once; clone_from assigns every field through the same-named accessor pair; no leak/double drop on a panicking field clone'),
     'C17': dict(level='other', engines=['WIT', 'SRC'], rules=['K-NORM', 'W-C17'],
-                what='type-equality probes type-checked by rustc for the names the crate prints over a grammar of types; table insert and lookup keys pass through the same normaliser'),
+                what='type-equality probes type-checked by rustc for the names the crate prints over a grammar of types and for the answers of a table looked up under several spellings; table insert and lookup keys pass through the same normaliser'),
     'C18': dict(level='other', engines=['SRC'], rules=['H-'],
-                what='size_of/align_of/type_name only in the host resolver, table registration and the name printer; every stored TypeInfo flows from the resolver / override / copied datum; lookups return the stored entry unmodified; serde derives symmetric'),
+                what='size_of/align_of/type_name only in the host resolver, table registration and the name printer; every stored TypeInfo flows from the resolver / override / copied datum; lookups return the stored entry unmodified; registrations never overwrite; wrapper resolvers forward; serde derives symmetric and complete'),
     'C19': dict(level='other', engines=['SRC'], rules=['N-DET'],
                 what='no observation of hash order, random source, clock, environment read, address used as identity or order, interior-mutable field or shared static (other than constant write-once tables) in non-test code of truc'),
     'C20': dict(level='other', engines=['SRC'], rules=['V-'],
